@@ -156,8 +156,12 @@ Qed.
 (* every Call of both operations answers a rejection with the breaker's error *)
 Lemma rej_open_prog_of o : rej_open (prog_of F o).
 Proof.
-  destruct o as [g d|gs email]; simpl; [|apply rej_open_check].
-  apply rej_open_list_group. intros l. constructor. discriminate.
+  destruct o as [g d|gs email|looks email|g]; simpl.
+  - apply rej_open_list_group. intros l. constructor. discriminate.
+  - apply rej_open_check.
+  - unfold validate_prog. destruct looks as [|x looks]; [constructor; discriminate|].
+    destruct (looks_uncached (x :: looks)); [apply rej_open_check | constructor; discriminate].
+  - apply rej_open_list_group. intros l. constructor. discriminate.
 Qed.
 
 Lemma SInv_init : SInv sys_init.
@@ -650,6 +654,66 @@ Proof.
 Qed.
 
 End ClientClauses.
+
+(* ====================================================================================== *)
+(* The layer above: GoogleProvider (google.go)                                               *)
+(* ====================================================================================== *)
+(* an uncached membership question is exactly CheckMemberships for all groups: every request it
+   causes is a Call of the breaker, and nothing but the cache and the group list decides that *)
+Lemma validate_goes_through_breaker looks email :
+  (looks = [] -> validate_prog looks email = Ret (ROk [])) /\
+  (looks <> [] -> looks_uncached looks = true ->
+     validate_prog looks email = check_prog (map fst looks) email []) /\
+  (looks <> [] -> looks_uncached looks = false -> exists l, validate_prog looks email = Ret (ROk l)).
+Proof.
+  unfold validate_prog. split; [intros ->; reflexivity|].
+  split; intros Hn Hu; destruct looks as [|x looks]; try contradiction; rewrite Hu; eauto.
+Qed.
+
+Section Probe.
+Variable trip reset : counts -> bool.
+Variable backoff : counts -> Z.
+Variable hom : Z.
+Variable F : nat.
+Variable dir : nat -> request -> answer.
+Notation sstep := (sstep trip reset backoff hom F dir).
+Notation sstep_st := (sstep_st trip reset backoff hom F dir).
+Notation sexec := (sexec trip reset backoff hom F dir).
+
+(* once the back-off deadline has strictly passed, the next operation that needs the directory
+   reaches it: its first Call announces half-open and is admitted as a probe (composition with
+   C15_open_expires) *)
+Lemma probe_after_deadline s o q rej k : prog_of F o = Req q rej k ->
+  st (br s) = Open -> expires (br s) < now (br s) -> cur (cnt (br s)) < half_open_max hom ->
+  let s' := sstep_st s (Begin o) in let ob := snd (sstep s (Begin o)) in
+  so_req ob = Some (nops s, nreq s, q) /\ so_done ob = None /\
+  st (br s') = HalfOpen /\ gen (br s') = S (gen (br s)) /\
+  exists b, so_start ob = Some b /\ o_adm b = Some true /\ o_ran b = true /\ o_hooks b = [HState Open HalfOpen].
+Proof.
+  intros Hp Ho Hd Hc. unfold BreakerClient.sstep_st, BreakerClient.sstep, BreakerClient.issue. rewrite Hp.
+  cbn [br pend nreq nops].
+  pose proof (open_expired_start trip reset backoff hom (br s) Ho Hd) as H.
+  destruct (step trip reset backoff hom (br s) Start) as [b' ob].
+  destruct H as (H1 & H2 & H3 & H4 & H5).
+  assert (Ea : o_adm ob = Some true) by (apply H4; exact Hc).
+  rewrite Ea in *. simpl. repeat split; auto. exists ob. auto.
+Qed.
+
+Lemma validate_probe_after_deadline evs g c looks email : let s := sexec evs in
+  looks_uncached ((g, c) :: looks) = true ->
+  st (br s) = Open -> expires (br s) < now (br s) -> cur (cnt (br s)) < half_open_max hom ->
+  let o := OValidate ((g, c) :: looks) email in
+  let s' := sstep_st s (Begin o) in let ob := snd (sstep s (Begin o)) in
+  so_req ob = Some (nops s, nreq s, RHas g email) /\ so_done ob = None /\
+  st (br s') = HalfOpen /\ gen (br s') = S (gen (br s)) /\
+  exists b, so_start ob = Some b /\ o_adm b = Some true /\ o_ran b = true /\ o_hooks b = [HState Open HalfOpen].
+Proof.
+  intros s Hu Ho Hd Hc.
+  refine (probe_after_deadline s (OValidate ((g, c) :: looks) email) (RHas g email) _ _ _ Ho Hd Hc).
+  cbn [prog_of]. unfold validate_prog. rewrite Hu. reflexivity.
+Qed.
+
+End Probe.
 
 (* error mapping, as the code has it *)
 Example list_err_table :
